@@ -109,8 +109,9 @@ theorem pickFrom_spec (cn : Nat → Name) (taken : List Name) (fuel k : Nat)
 theorem pickCall_fresh (cn : Nat → Name) (hinj : ∀ i j, cn i = cn j → i = j) (taken : List Name) :
     pickCall cn taken ∉ taken := by
   have hnodup : ((List.range (taken.length + 1)).map cn).Nodup := by
-    refine (List.nodup_map_iff_inj_on List.nodup_range).mpr ?_
-    intro a _ b _ hab; exact hinj a b hab
+    unfold List.Nodup
+    rw [List.pairwise_map]
+    exact (List.nodup_range (n := taken.length + 1)).imp fun {a b} hab hc => hab (hinj a b hc)
   obtain ⟨c, hc, hct⟩ := exists_not_mem_of_length_lt _ hnodup taken (by simp)
   obtain ⟨j, hj, rfl⟩ := List.mem_map.mp hc
   have hj' : j < taken.length + 1 := List.mem_range.mp hj
@@ -152,7 +153,7 @@ theorem resolve_fresh {params : List Name} {callName funcKey fname : Name}
   rw [h1]
   simp only [dset, if_neg hf]
   by_cases hfk : funcKey = fname
-  · simp only [if_pos hfk, get?, if_pos rfl]; rfl
-  · simp only [if_neg hfk, get?, if_pos rfl]; rfl
+  · simp only [if_pos hfk, get?]; rfl
+  · simp only [if_neg hfk, get?]; rfl
 
 end C13
